@@ -1,17 +1,22 @@
 // signal_replay.cpp -- replays behaviours of spec/Signal/Signal.tla (sequential histories) on the
-// real cocls::signal<int> / cocls::signal<void>: scripted listener coroutines on emitters, connect()
-// callbacks, the four call forms of the collector, held / discarded / awaited suspend points, on a
-// normal thread ("coro":false) or inside a coroutine with an active coro_queue ("coro":true).
+// real cocls::signal<int> / signal<Pay> / signal<void>: scripted listener coroutines on emitter OBJECTS (constructed,
+// assigned, re-bound to another signal), connect() callbacks, the call forms of the collector, held / discarded /
+// awaited suspend points, several signal objects, signal/collector objects copied, moved and used after the move,
+// on a normal thread ("coro":false) or inside a coroutine with an active coro_queue ("coro":true).
 // After every step the real objects are projected to the abstract state and compared.
 //
-// header: {"void":bool,"coro":bool,"pick":int,"kinds":{"l1":"loop","g2":"gated","t3":"cbt","o4":"cbonce","f5":"cbf"},
+// header: {"void":bool,"pay":bool (value type Pay: a class with several constructors, instead of int),"nsig":number of signal objects,
+//          "coro":bool,"pick":int,"kinds":{"l1":"loop","g2":"gated","t3":"cbt","o4":"cbonce","f5":"cbf"},
 //          "hooked":"l1"|"" -- that listener awaits signal<T>::hook_up(fn); there is no signal before its first co_await
 //                              (action HookUp(l,mode,n): fn emits n values through the collector, then stores / drops it),
 //          "late":bool      -- a listener's emitter is obtained at its first co_await (after collectors/copies exist)
 //                              instead of before any other handle was derived from the signal}
-// projection:
+// call forms of Emit(s,form): "inplace" (one argument of another type: the constructing overload), "inplace2" (two
+//   constructor arguments, Pay only), "default" (no argument on a non-void signal: T{}), "rvalue", "lvalue", "void"
+// projection (refs, chain, cur, stor, cvar: one entry per signal "1","2",..):
 //   {"refs":use_count of the shared state,"chain":[listeners from the top],"cur":"null|storage|caller",
 //    "stor":{"has","v"},"cvar":int,"held":bool,"sp":[..],"queue":[..],"st":{l:state},"received":{l:[..]},
+//    "bind":{l:signal designated by the weak reference of the listener's emitter object, 0 = empty},
 //    "nemit":n,"heap":net allocations made inside library calls (= live connect() objects),
 //    "cblive":{c:live instances of the callback functor}}
 #define REPLAY_COUNT_ALLOCS
@@ -35,6 +40,23 @@ struct lib_scope {
     lib_scope() : n0(alloc_stats::news), d0(alloc_stats::deletes) {}
     ~lib_scope() { lib_net += (alloc_stats::news - n0) - (alloc_stats::deletes - d0); }
 };
+
+// ---- a value type with several constructors ------------------------------------------------------
+struct Pay {
+    static inline long live = 0;
+    int v;
+    Pay() : v(0) { live++; }                                    // T{}: what the argument-less call passes
+    Pay(int hi, int lo) : v(hi * 10 + lo) { live++; }           // two constructor arguments
+    explicit Pay(short x) : v(x) { live++; }                    // one argument of another type
+    Pay(const Pay &o) : v(o.v) { live++; }
+    Pay(Pay &&o) noexcept : v(o.v) { o.v = TEMP_DEAD; live++; }
+    Pay &operator=(const Pay &o) = default;
+    ~Pay() { v = POISON; live--; }
+};
+static int val_of(const int &x) { return x; }
+static int val_of(const Pay &x) { return x.v; }
+static void set_val(int &x, int v) { x = v; }
+static void set_val(Pay &x, int v) { x.v = v; }
 
 struct SPProbe : cocls::suspend_point<void> {
     static std::vector<void *> handles(const cocls::suspend_point<void> &s) {
@@ -76,13 +98,21 @@ struct HProbe : cocls::signal<T>::template hook_up_emitter<Reg<T>> {
     auto weak_state() const { return this->_wk_state; }
 };
 
+// reads the weak reference an emitter object keeps protected
+template <typename T>
+struct EmProbe : cocls::signal<T>::emitter {
+    static const auto &weak_state(const typename cocls::signal<T>::emitter &e) { return e.*(&EmProbe::_wk_state); }
+};
+
 template <typename T>
 struct LState {
     std::string name;
     bool loop = false;
     bool hooked = false;
     std::optional<HProbe<T>> hk;        // hooked listener: what it co_awaits
-    typename cocls::signal<T>::emitter em;
+    // the ONE emitter object the listener awaits again and again; re-constructed in place / assigned by Rebind
+    std::optional<typename cocls::signal<T>::emitter> em;
+    int bind = 1;                       // what the history bound it to (used to pick sources only)
     std::coroutine_handle<> h{};        // the frame (parked at a gate or on the emitter)
     std::coroutine_handle<> gate_h{};   // set while parked at a gate
     Phase phase = Phase::fresh;
@@ -107,12 +137,12 @@ cocls::async<void> listener_body(LState<T> &L) {
             // (the operand must be a named lvalue: g++ 12 awaits a COPY of `*L.hk`)
             if constexpr (std::is_void_v<T>) {
                 if (L.hooked) { HProbe<T> &e = *L.hk; co_await e; }
-                else co_await L.em;
+                else { auto &e = *L.em; co_await e; }
                 L.seen.push(0);
             } else {
                 int v;
-                if (L.hooked) { HProbe<T> &e = *L.hk; int &r = co_await e; v = r; }
-                else { int &r = co_await L.em; v = r; }
+                if (L.hooked) { HProbe<T> &e = *L.hk; T &r = co_await e; v = val_of(r); }
+                else { auto &e = *L.em; T &r = co_await e; v = val_of(r); }
                 L.seen.push(v);
             }
         } catch (const cocls::await_canceled_exception &) {
@@ -156,6 +186,7 @@ struct CbFn {
     CbFn(CbFn &&o) : s(o.s) { s->add(this); }
     ~CbFn() { s->del(this); }
     bool operator()(int &v) { s->seen.push(v); return s->calls++ < s->quota; }
+    bool operator()(Pay &v) { s->seen.push(v.v); return s->calls++ < s->quota; }
     bool operator()() { s->seen.push(0); return s->calls++ < s->quota; }
 };
 
@@ -164,19 +195,29 @@ template <typename T>
 struct World {
     using signal_t = cocls::signal<T>;
     using collector_t = typename signal_t::collector;
+    using emitter_t = typename signal_t::emitter;
     using state_t = typename decltype(std::declval<collector_t>()._state)::element_type;
+    using slot_t = std::conditional_t<std::is_void_v<T>, int, T>;
     static constexpr int NH = 6;
+    static constexpr int NS = 3;           // signals 1..NS-1
 
-    std::optional<signal_t> sigs[NH];
-    std::optional<collector_t> cols[NH];
-    int created = 0;                       // handle slots used so far
-    std::weak_ptr<state_t> wk;
-    state_t *raw = nullptr;
+    // one signal: its signal/collector objects, the caller's variable passed by reference, an emitter kept as an lvalue
+    struct Sig {
+        std::optional<signal_t> sigs[NH];
+        std::optional<collector_t> cols[NH];
+        bool shell[NH] = {};               // the object in this slot has been moved from: it carries no state
+        int created = 0;                   // handle slots used so far
+        std::weak_ptr<state_t> wk;
+        state_t *raw = nullptr;
+        slot_t lv_slot{};
+        std::optional<emitter_t> src_em;   // obtained when the signal was created, never awaited: a source of copies
+    };
+    Sig S[NS];
+    int nsig = 1;
     std::map<std::string, LState<T>> ls;
     std::map<std::string, CbState> cbs;
     std::optional<cocls::suspend_point<void>> held;
-    int lv_slot = 0;                       // the caller's variable passed by lvalue reference
-    int rv_slot = 0;                       // the object passed by rvalue reference
+    slot_t rv_slot{};                      // the object passed by rvalue reference
     int nemit = 0;
     int pick = 0;
     bool coro = false;
@@ -189,12 +230,17 @@ struct World {
         pick = (int) sc.hdr.at("pick").as_int();
         late = sc.hdr.at("late").as_bool(false);
         hooked = sc.hdr.at("hooked").as_str("");
+        nsig = (int) sc.hdr.at("nsig").as_int(1);
+        if (nsig < 1 || nsig >= NS) throw std::runtime_error("bad nsig");
         if (hooked.empty()) {
-            sigs[0].emplace();
-            created = 1;
-            collector_t c = sigs[0]->get_collector();
-            wk = c._state;
-            raw = c._state.get();
+            for (int s = 1; s <= nsig; s++) {
+                S[s].sigs[0].emplace();
+                S[s].created = 1;
+                collector_t c = S[s].sigs[0]->get_collector();
+                S[s].wk = c._state;
+                S[s].raw = c._state.get();
+                S[s].src_em.emplace(S[s].sigs[0]->get_emitter());
+            }
         }
         for (auto &kv : sc.hdr.at("kinds").m) {
             const std::string &k = kv.second.s;
@@ -203,7 +249,8 @@ struct World {
                 L.name = kv.first;
                 L.loop = k == "loop";
                 L.hooked = kv.first == hooked;
-                if (sigs[0]) L.em = sigs[0]->get_emitter();
+                if (S[1].sigs[0]) L.em.emplace(S[1].sigs[0]->get_emitter());
+                else L.em.emplace();
             } else {
                 CbState &c = cbs[kv.first];
                 c.name = kv.first;
@@ -214,45 +261,95 @@ struct World {
 
     // called by the registration function of hook_up(): the signal exists now
     void born(collector_t &c) {
-        wk = c._state;
-        raw = c._state.get();
-        for (auto &kv : ls) if (!kv.second.hooked) kv.second.em = signal_t(c).get_emitter();
+        S[1].wk = c._state;
+        S[1].raw = c._state.get();
+        S[1].src_em.emplace(signal_t(c).get_emitter());
+        for (auto &kv : ls) if (!kv.second.hooked) *kv.second.em = signal_t(c).get_emitter();
     }
 
     // -- handles ----------------------------------------------------------------------------------
-    int live_handles() const {
+    bool live_slot(const Sig &g, int i) const { return (g.sigs[i] || g.cols[i]) && !g.shell[i]; }
+    int live_handles(int s) const {
         int n = 0;
-        for (int i = 0; i < NH; i++) n += (sigs[i] ? 1 : 0) + (cols[i] ? 1 : 0);
+        for (int i = 0; i < NH; i++) n += live_slot(S[s], i) ? 1 : 0;
         return n;
     }
-    int nth_live(int n) const {
-        for (int i = 0; i < NH; i++) if (sigs[i] || cols[i]) { if (n-- == 0) return i; }
+    int all_live_handles() const { int n = 0; for (int s = 1; s <= nsig; s++) n += live_handles(s); return n; }
+    int nth_live(int s, int n) const {
+        for (int i = 0; i < NH; i++) if (live_slot(S[s], i)) { if (n-- == 0) return i; }
         return -1;
     }
-    collector_t collector_of(int i) { return sigs[i] ? sigs[i]->get_collector() : *cols[i]; }
-    signal_t signal_of(int i) { return sigs[i] ? *sigs[i] : signal_t(*cols[i]); }
-    void copy_handle() {
-        int src = nth_live((pick + created) % live_handles());
-        int dst = 0;
-        while (dst < NH && (sigs[dst] || cols[dst])) dst++;
-        if (dst >= NH) throw std::runtime_error("too many handles");
-        if ((created++ + pick) % 2) cols[dst].emplace(collector_of(src));
-        else sigs[dst].emplace(signal_of(src));
+    // a slot for a new object: an empty one, else the one of the oldest moved-from object (which is destroyed: no effect)
+    int free_slot(Sig &g) {
+        for (int i = 0; i < NH; i++) if (!g.sigs[i] && !g.cols[i]) return i;
+        for (int i = 0; i < NH; i++) if (g.shell[i]) { g.sigs[i].reset(); g.cols[i].reset(); g.shell[i] = false; return i; }
+        throw std::runtime_error("too many handles");
     }
-    void drop_handle(int salt) {
-        int i = nth_live((pick + salt) % live_handles());
-        sigs[i].reset();
-        cols[i].reset();
+    collector_t collector_of(Sig &g, int i) { return g.sigs[i] ? g.sigs[i]->get_collector() : *g.cols[i]; }
+    signal_t signal_of(Sig &g, int i) { return g.sigs[i] ? *g.sigs[i] : signal_t(*g.cols[i]); }
+    void copy_handle(int s) {
+        Sig &g = S[s];
+        int src = nth_live(s, (pick + g.created) % live_handles(s));
+        int dst = free_slot(g);
+        if ((g.created++ + pick) % 2) g.cols[dst].emplace(collector_of(g, src));
+        else g.sigs[dst].emplace(signal_of(g, src));
+    }
+    // the object of a live slot is moved to a new object of the same class (move construction, or move assignment
+    // to an object that has been moved from before); the source stays where it is, without state
+    void move_handle(int s, int salt) {
+        Sig &g = S[s];
+        int src = nth_live(s, (pick + salt) % live_handles(s));
+        bool is_sig = g.sigs[src].has_value();
+        int dst = -1;
+        if ((pick + salt) % 3 != 0) {
+            for (int i = 0; i < NH && dst < 0; i++) if (g.shell[i] && (is_sig ? g.sigs[i].has_value() : g.cols[i].has_value())) dst = i;
+        }
+        if (dst >= 0) {
+            if (is_sig) *g.sigs[dst] = std::move(*g.sigs[src]);
+            else *g.cols[dst] = std::move(*g.cols[src]);
+            g.shell[dst] = false;
+        } else {
+            dst = free_slot(g);
+            if (is_sig) g.sigs[dst].emplace(std::move(*g.sigs[src]));
+            else g.cols[dst].emplace(std::move(*g.cols[src]));
+        }
+        g.shell[src] = true;
+    }
+    void drop_handle(int s, int salt) {
+        Sig &g = S[s];
+        int i = nth_live(s, (pick + salt) % live_handles(s));
+        g.sigs[i].reset();
+        g.cols[i].reset();
+    }
+    // a signal object without state: one that has been moved from in this history, else a fresh one; a collector
+    // object without state is turned into a signal first (collector::operator signal)
+    signal_t stateless_signal(int salt) {
+        std::vector<std::pair<int, int>> sh;
+        for (int s = 1; s <= nsig; s++) for (int i = 0; i < NH; i++) if (S[s].shell[i]) sh.push_back({s, i});
+        if (!sh.empty()) {
+            auto [s, i] = sh[(pick + salt) % sh.size()];
+            if (S[s].sigs[i]) return *S[s].sigs[i];
+            return signal_t(*S[s].cols[i]);
+        }
+        signal_t a;
+        signal_t b(std::move(a));
+        return a;                           // (copy of the moved-from object; b and its state die here)
+    }
+    signal_t *shell_signal(int salt) {
+        std::vector<signal_t *> sh;
+        for (int s = 1; s <= nsig; s++) for (int i = 0; i < NH; i++) if (S[s].shell[i] && S[s].sigs[i]) sh.push_back(&*S[s].sigs[i]);
+        return sh.empty() ? nullptr : sh[(pick + salt) % sh.size()];
     }
 
     // -- naming of chain nodes and handles --------------------------------------------------------
     std::string who(const cocls::awaiter *n) {
         for (auto &kv : ls) {
-            if (kv.second.hooked ? (kv.second.hk && kv.second.hk->node() == n) : static_cast<const cocls::awaiter *>(&kv.second.em) == n) return kv.first;
+            if (kv.second.hooked ? (kv.second.hk && kv.second.hk->node() == n)
+                                 : (kv.second.em && static_cast<const cocls::awaiter *>(&*kv.second.em) == n)) return kv.first;
         }
         // a connect() node is `class Awt : emitter { Fn _fn; }` (signal.h:263-308): the live functor
         // instance sits right behind the emitter base
-        const char *p = reinterpret_cast<const char *>(n) + sizeof(typename signal_t::emitter);
+        const char *p = reinterpret_cast<const char *>(n) + sizeof(emitter_t);
         for (auto &kv : cbs) {
             for (int i = 0; i < kv.second.ninst; i++) {
                 const char *a = static_cast<const char *>(kv.second.inst[i]);
@@ -266,43 +363,63 @@ struct World {
         if (a == driver_addr) return "driver";
         return "unknown";
     }
+    // which signal a weak reference designates (0: none)
+    template <typename W>
+    int bound_to(const W &w) {
+        auto same = [](const auto &a, const auto &b) { return !a.owner_before(b) && !b.owner_before(a); };
+        if (same(w, std::weak_ptr<state_t>())) return 0;
+        for (int s = 1; s <= nsig; s++) if (same(w, S[s].wk)) return s;
+        return -2;
+    }
 
     J project() {
         J m = J::map();
-        long refs = wk.use_count();
-        m.set("refs", refs);
-        std::vector<std::string> chain, spv, qv;
-        std::string cur = "null";
-        J stor = J::map();
-        stor.set("has", false);
-        stor.set("v", 0);
-        if (refs > 0) {
-            int fuel = 12;
-            for (cocls::awaiter *n = raw->_chain.verif_peek(); n && fuel--; n = n->_next) chain.push_back(who(n));
-            if (raw->_cur_val == nullptr) cur = "null";
-            else if (raw->_value_storage.has_value() && raw->_cur_val == &*raw->_value_storage) cur = "storage";
-            else if constexpr (!std::is_void_v<T>) { cur = raw->_cur_val == &lv_slot ? "caller" : "other"; }
-            else cur = "other";
-            if (raw->_value_storage.has_value()) {
-                stor.set("has", true);
-                if constexpr (std::is_void_v<T>) stor.set("v", 0);
-                else stor.set("v", *raw->_value_storage);
+        J jrefs = J::map(), jchain = J::map(), jcur = J::map(), jstor = J::map(), jcvar = J::map();
+        std::vector<std::string> allchain, spv, qv;
+        for (int s = 1; s <= nsig; s++) {
+            Sig &g = S[s];
+            std::string key = std::to_string(s);
+            long refs = g.wk.use_count();
+            jrefs.set(key, refs);
+            std::vector<std::string> chain;
+            std::string cur = "null";
+            J stor = J::map();
+            stor.set("has", false);
+            stor.set("v", 0);
+            if (refs > 0) {
+                int fuel = 12;
+                for (cocls::awaiter *n = g.raw->_chain.verif_peek(); n && fuel--; n = n->_next) chain.push_back(who(n));
+                if (g.raw->_cur_val == nullptr) cur = "null";
+                else if (g.raw->_value_storage.has_value() && g.raw->_cur_val == &*g.raw->_value_storage) cur = "storage";
+                else if constexpr (!std::is_void_v<T>) { cur = g.raw->_cur_val == &g.lv_slot ? "caller" : "other"; }
+                else cur = "other";
+                if (g.raw->_value_storage.has_value()) {
+                    stor.set("has", true);
+                    if constexpr (std::is_void_v<T>) stor.set("v", 0);
+                    else stor.set("v", val_of(*g.raw->_value_storage));
+                }
             }
+            jchain.set(key, J::list(chain.begin(), chain.end()));
+            jcur.set(key, cur);
+            jstor.set(key, stor);
+            jcvar.set(key, val_of(g.lv_slot));
+            allchain.insert(allchain.end(), chain.begin(), chain.end());
         }
         if (held) for (void *a : SPProbe::handles(*held)) spv.push_back(who_handle(a));
         if (cocls::coro_queue::instance) {
             for (auto h : cocls::coro_queue::instance->_queue) qv.push_back(who_handle(h.address()));
         }
         auto in = [](const std::vector<std::string> &v, const std::string &x) { return std::find(v.begin(), v.end(), x) != v.end(); };
-        m.set("chain", J::list(chain.begin(), chain.end()));
+        m.set("refs", jrefs);
+        m.set("chain", jchain);
+        m.set("cur", jcur);
+        m.set("stor", jstor);
+        m.set("cvar", jcvar);
         m.set("sp", J::list(spv.begin(), spv.end()));
         m.set("queue", J::list(qv.begin(), qv.end()));
-        m.set("cur", cur);
-        m.set("stor", stor);
-        m.set("cvar", lv_slot);
         m.set("held", held.has_value());
         m.set("nemit", nemit);
-        J st = J::map(), rec = J::map(), cblive = J::map();
+        J st = J::map(), rec = J::map(), cblive = J::map(), jbind = J::map();
         for (auto &kv : ls) {
             LState<T> &L = kv.second;
             std::string s;
@@ -311,18 +428,19 @@ struct World {
                 case Phase::gate: s = "gate"; break;
                 case Phase::done: s = "done"; break;
                 case Phase::awaiting:
-                    s = in(chain, kv.first) ? "waiting" : (in(spv, kv.first) || in(qv, kv.first)) ? "released" : "lost";
+                    s = in(allchain, kv.first) ? "waiting" : (in(spv, kv.first) || in(qv, kv.first)) ? "released" : "lost";
                     break;
             }
             st.set(kv.first, s);
             rec.set(kv.first, L.seen.json());
+            if (hooked.empty()) jbind.set(kv.first, bound_to(EmProbe<T>::weak_state(*L.em)));   // (hook_up: no signal to be bound to before HookUp)
         }
         for (auto &kv : cbs) {
             CbState &c = kv.second;
             std::string s;
             if (!c.connected) s = "new";
             else if (c.live() == 0) s = "freed";
-            else if (c.live() == 1) s = in(chain, kv.first) ? "waiting" : "lost";
+            else if (c.live() == 1) s = in(allchain, kv.first) ? "waiting" : "lost";
             else s = "live=" + std::to_string(c.live());
             st.set(kv.first, s);
             rec.set(kv.first, c.seen.json());
@@ -330,9 +448,17 @@ struct World {
         }
         m.set("st", st);
         m.set("received", rec);
+        m.set("bind", jbind);
         m.set("cblive", cblive);
         m.set("heap", lib_net);
         return m;
+    }
+
+    // the signal argument of an action label (1 if the action has none)
+    int sig_arg(const Step &stp, std::size_t i) const {
+        int s = stp.args.size() > i ? stp.iarg(i) : 1;
+        if (s < 1 || s > nsig) throw std::runtime_error("bad signal in " + stp.label);
+        return s;
     }
 
     // -- actions that need no suspension of the caller; returns false on an unknown action --------
@@ -344,9 +470,10 @@ struct World {
             LState<T> &L = it->second;
             if (L.phase == Phase::fresh) {
                 if (L.hooked) { rep.error(k, "hooked listener starts with HookUp"); return false; }
-                if (late && live_handles() > 0) {
-                    int i = nth_live((pick + (int) k) % live_handles());
-                    L.em = sigs[i] ? sigs[i]->get_emitter() : signal_t(*cols[i]).get_emitter();
+                if (late && L.bind != 0 && live_handles(L.bind) > 0) {
+                    Sig &g = S[L.bind];
+                    int i = nth_live(L.bind, (pick + (int) k) % live_handles(L.bind));
+                    *L.em = g.sigs[i] ? g.sigs[i]->get_emitter() : signal_t(*g.cols[i]).get_emitter();
                 }
                 start(L);                              // runs up to `co_await emitter`
             } else if (L.gate_h) {
@@ -354,6 +481,50 @@ struct World {
                 lib_scope s;
                 g.resume();
             } else { rep.error(k, "listener is not at a gate"); return false; }
+        } else if (a == "Rebind") {
+            // Rebind(l, how, src): src = a signal number (0: the empty emitter) or another listener (its emitter object)
+            auto it = ls.find(stp.sarg(0));
+            if (it == ls.end() || it->second.hooked) { rep.error(k, "unknown listener"); return false; }
+            LState<T> &L = it->second;
+            if (L.phase == Phase::awaiting) { rep.error(k, "listener is suspended on its emitter"); return false; }
+            const std::string &how = stp.sarg(1);
+            const std::string &src = stp.sarg(2);
+            const emitter_t *lv = nullptr;             // the source, an lvalue that must stay as it is
+            std::optional<emitter_t> tmp;              // or a temporary
+            int var = (pick + (int) k) % 3;
+            auto os = ls.find(src);
+            if (os != ls.end()) {
+                if (os->second.hooked || &os->second == &L || (how != "cctor" && how != "cassign")) { rep.error(k, "bad source"); return false; }
+                lv = &*os->second.em;
+                L.bind = os->second.bind;
+            } else {
+                int s = atoi(src.c_str());
+                if (s < 0 || s > nsig) { rep.error(k, "bad source"); return false; }
+                L.bind = s;
+                if (s == 0) {
+                    if (var == 0) tmp.emplace();                                    // emitter()
+                    else if (var == 1) tmp.emplace(stateless_signal((int) k).get_emitter());
+                    else tmp.emplace(std::weak_ptr<state_t>());
+                } else if (live_handles(s) > 0 && var != 0) {
+                    int i = nth_live(s, (pick + (int) k) % live_handles(s));
+                    tmp.emplace(S[s].sigs[i] ? S[s].sigs[i]->get_emitter() : signal_t(*S[s].cols[i]).get_emitter());
+                } else lv = &*S[s].src_em;
+            }
+            lib_scope sc;
+            if (how == "cctor") {
+                if (lv) L.em.emplace(*lv);
+                else { const emitter_t &c = *tmp; L.em.emplace(c); }
+            } else if (how == "cassign") {
+                if (lv) *L.em = *lv;
+                else { const emitter_t &c = *tmp; *L.em = c; }
+            } else if (how == "mctor") {
+                if (lv) tmp.emplace(*lv);              // never move from somebody else's object
+                L.em.emplace(std::move(*tmp));
+            } else if (how == "massign") {
+                if (lv) tmp.emplace(*lv);
+                *L.em = std::move(*tmp);
+            } else { rep.error(k, "bad form of re-binding"); return false; }
+            tmp.reset();
         } else if (a == "HookUp") {
             auto it = ls.find(stp.sarg(0));
             if (it == ls.end() || !it->second.hooked || it->second.phase != Phase::fresh) { rep.error(k, "cannot hook up"); return false; }
@@ -364,51 +535,84 @@ struct World {
             lib_net -= 1;
         } else if (a == "Connect") {
             auto it = cbs.find(stp.sarg(0));
-            if (it == cbs.end() || live_handles() == 0) { rep.error(k, "cannot connect"); return false; }
+            int s = sig_arg(stp, 1);
+            if (it == cbs.end() || live_handles(s) == 0) { rep.error(k, "cannot connect"); return false; }
             it->second.connected = true;
-            int i = nth_live((pick + (int) k) % live_handles());
-            lib_scope s;
-            if (sigs[i]) sigs[i]->connect(CbFn(&it->second));
-            else { signal_t tmp(*cols[i]); tmp.connect(CbFn(&it->second)); }
-        } else if (a == "Emit") {
-            if (live_handles() == 0 || held) { rep.error(k, "cannot emit"); return false; }
-            int i = nth_live((pick + (int) k) % live_handles());
-            int v = ++nemit;
-            const std::string &form = stp.sarg(0);
-            lib_scope s;
-            if constexpr (std::is_void_v<T>) {
-                if (form != "void") { rep.error(k, "bad form"); return false; }
-                if (cols[i]) held.emplace((*cols[i])());
-                else held.emplace(sigs[i]->get_collector()());
+            Sig &g = S[s];
+            int i = nth_live(s, (pick + (int) k) % live_handles(s));
+            lib_scope sc;
+            if (g.sigs[i]) g.sigs[i]->connect(CbFn(&it->second));
+            else { signal_t tmp(*g.cols[i]); tmp.connect(CbFn(&it->second)); }
+        } else if (a == "ConnectDead") {
+            // connect() on a signal object without state: the object itself if the history has moved from one
+            auto it = cbs.find(stp.sarg(0));
+            if (it == cbs.end()) { rep.error(k, "cannot connect"); return false; }
+            it->second.connected = true;
+            signal_t *sh = (pick + (int) k) % 2 ? shell_signal((int) k) : nullptr;
+            if (sh) {
+                lib_scope sc;
+                sh->connect(CbFn(&it->second));
             } else {
-                if (form == "inplace") {
-                    // argument is not an int: the constructing template overload (signal.h:96) is selected
-                    if (cols[i]) held.emplace((*cols[i])(static_cast<short>(v)));
-                    else held.emplace(sigs[i]->get_collector()(static_cast<short>(v)));
-                } else if (form == "rvalue") {
-                    rv_slot = v;
-                    if (cols[i]) held.emplace((*cols[i])(std::move(rv_slot)));
-                    else held.emplace(sigs[i]->get_collector()(std::move(rv_slot)));
-                    rv_slot = TEMP_DEAD;               // the temporary is gone once the call returned
-                } else if (form == "lvalue") {
-                    lv_slot = v;
-                    if (cols[i]) held.emplace((*cols[i])(lv_slot));
-                    else held.emplace(sigs[i]->get_collector()(lv_slot));
-                } else { rep.error(k, "bad form"); return false; }
+                signal_t tmp = stateless_signal((int) k);
+                lib_scope sc;
+                tmp.connect(CbFn(&it->second));
+            }
+        } else if (a == "Emit") {
+            int s = sig_arg(stp, 0);
+            if (live_handles(s) == 0 || held) { rep.error(k, "cannot emit"); return false; }
+            Sig &g = S[s];
+            int i = nth_live(s, (pick + (int) k) % live_handles(s));
+            int v = ++nemit;
+            const std::string &form = stp.sarg(1);
+            std::optional<collector_t> tc;
+            if (!g.cols[i]) tc.emplace(g.sigs[i]->get_collector());
+            const collector_t &col = g.cols[i] ? *g.cols[i] : *tc;
+            {
+                lib_scope sc;
+                if constexpr (std::is_void_v<T>) {
+                    if (form != "void") { rep.error(k, "bad form"); return false; }
+                    held.emplace(col());
+                } else {
+                    if (form == "inplace") {
+                        // argument is not a T: the constructing template overload (signal.h:96) is selected
+                        held.emplace(col(static_cast<short>(v)));
+                    } else if (form == "inplace2") {
+                        if constexpr (std::is_same_v<T, Pay>) held.emplace(col(v / 10, v % 10));
+                        else { rep.error(k, "bad form"); return false; }
+                    } else if (form == "default") {
+                        held.emplace(col());               // the same overload without arguments: T{}
+                    } else if (form == "rvalue") {
+                        set_val(rv_slot, v);
+                        held.emplace(col(std::move(rv_slot)));
+                        set_val(rv_slot, TEMP_DEAD);       // the temporary is gone once the call returned
+                    } else if (form == "lvalue") {
+                        set_val(g.lv_slot, v);
+                        held.emplace(col(g.lv_slot));
+                    } else { rep.error(k, "bad form"); return false; }
+                }
+                tc.reset();
             }
         } else if (a == "ReleaseSP") {
             if (stp.sarg(0) != "discard") { rep.error(k, "await outside of a coroutine"); return false; }
             lib_scope s;
             held.reset();
         } else if (a == "CopyHandle") {
-            lib_scope s;
-            copy_handle();
+            int s = sig_arg(stp, 0);
+            if (live_handles(s) == 0) { rep.error(k, "no handle"); return false; }
+            lib_scope sc;
+            copy_handle(s);
+        } else if (a == "MoveHandle") {
+            int s = sig_arg(stp, 0);
+            if (live_handles(s) == 0) { rep.error(k, "no handle"); return false; }
+            lib_scope sc;
+            move_handle(s, (int) k);
         } else if (a == "DropHandle" || a == "StateDtor") {
-            if (live_handles() == 0) { rep.error(k, "no handle"); return false; }
-            lib_scope s;
-            drop_handle((int) k);
+            int s = sig_arg(stp, 0);
+            if (live_handles(s) == 0) { rep.error(k, "no handle"); return false; }
+            lib_scope sc;
+            drop_handle(s, (int) k);
         } else if (a == "EndScope") {
-            lv_slot = POISON;
+            set_val(S[sig_arg(stp, 0)].lv_slot, POISON);
         } else {
             rep.error(k, "unknown action");
             return false;
@@ -431,7 +635,7 @@ struct World {
     void wind_up() {
         lib_scope s;
         held.reset();
-        for (int i = 0; i < NH; i++) { sigs[i].reset(); cols[i].reset(); }
+        for (int g = 1; g < NS; g++) for (int i = 0; i < NH; i++) { S[g].sigs[i].reset(); S[g].cols[i].reset(); S[g].shell[i] = false; }
     }
 
     void final_checks(const Scenario &sc, Reporter &rep) {
@@ -459,9 +663,9 @@ void Reg<T>::operator()(typename cocls::signal<T>::collector c) {
         // each call's suspend point is discarded at once ("replay the current value to the new observer")
         if constexpr (std::is_void_v<T>) { (void) v; c(); }
         else if ((w->pick + i) % 2) c(static_cast<short>(v));
-        else { w->rv_slot = v; c(std::move(w->rv_slot)); w->rv_slot = TEMP_DEAD; }
+        else { set_val(w->rv_slot, v); c(std::move(w->rv_slot)); set_val(w->rv_slot, TEMP_DEAD); }
     }
-    if (store) { w->cols[0].emplace(std::move(c)); w->created = 1; }
+    if (store) { w->S[1].cols[0].emplace(std::move(c)); w->S[1].created = 1; }
 }
 
 template <typename T>
@@ -490,6 +694,7 @@ static void run_world(const Scenario &sc, Reporter &rep) {
     cocls::coro_queue::queue_impl::instance._queue = std::deque<std::coroutine_handle<>>();
     lib_net = 0;
     long base = alloc_stats::news - alloc_stats::deletes;
+    long pay0 = Pay::live;
     {
         World<T> w;
         w.setup(sc);
@@ -501,7 +706,7 @@ static void run_world(const Scenario &sc, Reporter &rep) {
             bool finished = false;
             // the coroutine frame destroys itself on completion; completion is observed through wind_up()
             cocls::coro_queue::install_queue_and_resume(h);
-            finished = w.live_handles() == 0 && !w.held;
+            finished = w.all_live_handles() == 0 && !w.held;
             if (!finished) {
                 if (!rep.failed()) rep.diverge(sc.steps.empty() ? 0 : sc.steps.size() - 1, "driver coroutine was never resumed again");
                 fflush(stdout);
@@ -518,14 +723,19 @@ static void run_world(const Scenario &sc, Reporter &rep) {
         w.destroy_frames();
     }
     long after = alloc_stats::news - alloc_stats::deletes;
+    std::size_t last = sc.steps.empty() ? 0 : sc.steps.size() - 1;
     if (after != base && !rep.failed()) {
-        rep.diverge(sc.steps.empty() ? 0 : sc.steps.size() - 1, "allocation imbalance over the scenario: " + std::to_string(after - base));
+        rep.diverge(last, "allocation imbalance over the scenario: " + std::to_string(after - base));
+    }
+    if (Pay::live != pay0 && !rep.failed()) {
+        rep.diverge(last, "value objects constructed and destroyed are not balanced: " + std::to_string(Pay::live - pay0));
     }
 }
 
 int main() {
     return replay_main(std::cin, [](const Scenario &sc, Reporter &rep) {
         if (sc.hdr.at("void").as_bool()) run_world<void>(sc, rep);
+        else if (sc.hdr.at("pay").as_bool(false)) run_world<Pay>(sc, rep);
         else run_world<int>(sc, rep);
     });
 }
